@@ -36,11 +36,18 @@ def run(ctx):
     ctx.rule('R8.3', 'StripCommentsFilter removes/replaces only non-hint comments and keeps a separator', floor=6)
     ctx.rule('R8.4', 'placement: case/truncate in preprocess, comment stripping in stmtprocess with grouping', floor=4)
     T = get_tables(ctx)
-    for cname in ('_CaseFilter', 'IdentifierCaseFilter'):
-        check_case_filter(ctx, RF.filter_class(ctx, cname))
+    seen = set()
+    for cname in ('KeywordCaseFilter', 'IdentifierCaseFilter'):
+        c = RF.filter_class(ctx, cname)
+        f = ctx.repo.lookup_method(c, 'process')
+        if f is not None and f.qname in seen:
+            continue
+        seen.add(f.qname if f is not None else cname)
+        check_case_filter(ctx, c)
     check_convert(ctx)
     check_truncate(ctx)
     check_guards(ctx, T)
+    check_case_decisions(ctx, T)
     check_strip_comments(ctx, T)
     check_placement(ctx)
 
@@ -56,16 +63,17 @@ def stream_loop(ctx, f):
 
 
 def check_case_filter(ctx, c):
-    f = c.methods.get('process')
+    f = ctx.repo.lookup_method(c, 'process')
     ctx.need(f is not None, f'{c.name}.process not found')
     lp, (tv, vv), stray = stream_loop(ctx, f)
     loc = f'{f.mod.relpath}:{lp.lineno}'
-    ctx.ob('R8.1', f'{c.name}:no-stray-yield', loc, 'no yield outside the stream loop', not stray, 'a token is invented outside the loop')
+    tag = f'{c.name}[{f.cls.name}.process]' if f.cls is not c else c.name
+    ctx.ob('R8.1', f'{tag}:no-stray-yield', loc, 'no yield outside the stream loop', not stray, 'a token is invented outside the loop')
     for p in enum_paths(lp.body):
         st = p.stmts()
         ys = [s for s in st if isinstance(s, ast.Expr) and isinstance(s.value, ast.Yield)]
         desc = ' ∧ '.join(('' if pol else 'not ') + src(t) for t, pol in p.tests()) or 'always'
-        key = f'{c.name}:path[{desc}]'
+        key = f'{tag}:path[{desc}]'
         if len(ys) != 1 or p.exit not in ('fall', 'continue'):
             ctx.ob('R8.1', key, loc, 'exactly one yield per input token', False, f'{len(ys)} yields, exit {p.exit}: a token is dropped or duplicated')
             continue
@@ -78,26 +86,66 @@ def check_case_filter(ctx, c):
         if ok and t_stores:
             ok, detail = False, f'`{src(t_stores[0])}` changes the token type'
         if ok:
-            facts = [a for a in p.facts() if a[0] != '|']
-            guarded = (f'{tv} in self.ttype', True) in facts
             for s in v_stores:
                 good = isinstance(s, ast.Assign) and isinstance(s.value, ast.Call) and is_attr(s.value.func, 'convert', 'self') \
-                    and len(s.value.args) == 1 and is_name(s.value.args[0], vv) and guarded
+                    and len(s.value.args) == 1 and is_name(s.value.args[0], vv)
                 if not good:
-                    ok, detail = False, f'`{src(s)}` (guards {[e for e, p_ in facts if p_]}) is not `{vv} = self.convert({vv})` under `{tv} in self.ttype`'
-            if not v_stores and guarded and c.name == '_CaseFilter':
-                pass
-        ctx.ob('R8.1', key, f'{f.mod.relpath}:{ys[0].lineno}', 'yields (ttype, value) with value converted only under the type guard', ok,
-               detail + ': a token outside the target set is modified, or a target is modified by more than its letter case')
-    # identifiers in double quotes are excluded
-    if c.name == 'IdentifierCaseFilter':
-        conv = [s for s in own_nodes(f.node) if isinstance(s, ast.Assign) and isinstance(s.value, ast.Call) and is_attr(s.value.func, 'convert', 'self')]
-        g = Guards(f.node)
-        for s in conv:
-            facts = [e for e, p in g.facts(s) if e != '|' and (p or not p)]
-            ok = any('"' in e or "'\"'" in e for e in facts)
-            ctx.ob('R8.1', 'IdentifierCaseFilter:double-quote-excluded', f'{f.mod.relpath}:{s.lineno}',
-                   'names in double quotes are not converted', ok, f'guards {facts}')
+                    ok, detail = False, f'`{src(s)}` is not `{vv} = self.convert({vv})`'
+        ctx.ob('R8.1', key, f'{f.mod.relpath}:{ys[0].lineno}', 'yields (ttype, value), the value at most replaced by self.convert(value)', ok,
+               detail + ': a token is modified by more than its letter case')
+    return f, lp, tv, vv
+
+
+def check_case_decisions(ctx, T):
+    """R8.2: run one loop iteration of <Filter>.process (method resolved through the MRO, helper methods of the filter
+    inlined) on every token type the lexer can emit x {plain, double-quoted} value and compare the decision `converted /
+    untouched` with the property: all keyword types resp. exactly Name and String.Symbol not starting with a double quote."""
+    from .. import miniev as ME
+    repo = ctx.repo
+    types = set()
+    for r in T.lex:
+        if isinstance(r.action, TT):
+            types.add(tuple(r.action))
+    for _, d in T.kw:
+        for v in d.values():
+            if isinstance(v, TT):
+                types.add(tuple(v))
+    types.add(('Name',))
+    wants = {
+        'KeywordCaseFilter': lambda t, v: KW.contains(t),
+        'IdentifierCaseFilter': lambda t, v: tuple(t) in (tuple(NAME), tuple(SYMBOL)) and not v.strip().startswith('"'),
+    }
+    for cname, want in wants.items():
+        c = RF.filter_class(ctx, cname)
+        f = repo.lookup_method(c, 'process')
+        lp, (tv, vv), stray = stream_loop(ctx, f)
+        node, owner = repo.lookup_class_attr(c, 'ttype')
+        ctx.need(node is not None, f'{cname}.ttype not found')
+        for t in sorted(types):
+            tt = TT(t)
+            for val in ('abc', '"abc"'):
+                if cname == 'KeywordCaseFilter' and val != 'abc':
+                    continue
+                out = []
+                ev = ME.Evaluator(ctx, f.mod, f.cls)
+                ev.on_yield = out.append
+                me = ME.Obj(_cls=c, convert=lambda x: ('CONVERTED', x))
+                env = {'self': me, tv: tt, vv: val}
+                try:
+                    ME.run_function(ev, ast.FunctionDef(name='it', body=lp.body, args=None), env)
+                    res = out
+                except ME.Unsupported as e:
+                    ctx.need(False, f'{cname}.process not evaluable on ({tt!r}, {val!r}): {e}')
+                except (ME.Crash, ME.Unknown) as e:
+                    res = f'raises/unknown: {e}'
+                w = want(tt, val)
+                expect = [(tt, ('CONVERTED', val) if w else val)]
+                good = isinstance(res, list) and len(res) == 1 and isinstance(res[0], tuple) and len(res[0]) == 2 and \
+                    isinstance(res[0][0], TT) and tuple(res[0][0]) == t and res[0][1] == expect[0][1]
+                ctx.ob('R8.2', f'{cname}:{tt!r}:{val}', f'{f.mod.relpath}:{lp.lineno}',
+                       f'{cname} {"converts" if w else "leaves"} a {tt!r} token {val!r}', good,
+                       f'one iteration yields {res}: ' + ('a target token keeps its case' if w else 'a token that is not a target '
+                       '(placeholder, builtin, quoted name ...) is case-converted'))
 
 
 def check_convert(ctx):
